@@ -46,7 +46,9 @@ fire("C05", B, "first_const = not constants", "first_const = True")
 fire("C05", C, '    if code_data.future_annotations:\n        flags_data |= {"annotations"}', "    pass")
 # ---- C14
 fire("C14", I, "        yield self\n        for code_data in self:", "        for code_data in self:")
-fire("C14", I, "if isinstance(arg, Constant) and isinstance(arg.constant, CodeData):", "if isinstance(arg, Constant):")
+fire("C14", I, "                    isinstance(arg, Constant)\n                    and isinstance(arg.constant, CodeData)\n                    and arg.constant not in seen",
+     "                    isinstance(arg, Constant)\n                    and arg.constant not in seen")
+fire("C14", I, "                    and arg.constant not in seen\n", "", "the original defect: one yield per loading instruction")
 fire("C14", I, "        for additional_arg in self._additional_args:", "        for additional_arg in ():", "the original defect")
 # ---- C09
 fire("C09", B, "        wrong_position = (\n            self._index_to_order[index] != index or index in self._duplicates\n        )", "        wrong_position = True")
